@@ -11,7 +11,9 @@ RULE = ('generated terminal sessions of 1..60 tokens (printable runs incl. multi
         'mode: the terminal decodes; unicode mode: the spawn decodes), or is fed directly in pieces. Oracle after EVERY delivery: no '
         'exception, grid exactly rows x cols single characters, cursor on screen; after every completed token (twin fed token by '
         'token) the parser is back in its ground state with no parameters left; final screen, cursor, saved cursor, scroll region '
-        'and parser state equal those of a twin fed the whole stream at once. Non-trivial: >= 1 cut; distinct by trace digest')
+        'and parser state equal those of a twin fed the whole stream at once. Added later: arbitrary final / intermediate bytes inside '
+        'control sequences (CAN, SUB, NUL, DEL, ESC), parameters written with non-ASCII decimal digits. '
+        'Non-trivial: >= 1 cut; distinct by trace digest')
 
 ASSUME = ['this is the degenerate corner of the technique (one consumer, no clock): only torn delivery and mid-sequence death are simulated',
           'unknown sequences make the emulator append to ./log; the check runs in a scratch directory']
